@@ -19,6 +19,14 @@ def d14_event_in_zero_rate_bin(args, rec):
     msg = ' '.join((rec.get('replay') or {}).get('violated_clauses') or [])
     if 'definition gives -inf' not in msg:
         return False
+    # only the BINARY likelihood: the same symptom in the Poisson tests is a different (new) violation
+    orc = rec.get('oracle')
+    if orc == 'sim_test_ndarray' and args.get('kind') != 'binary':
+        return False
+    if orc == 'gridded_test' and args.get('test') not in ('bS', 'bCL'):
+        return False
+    if orc not in ('binary_jll_ndarray', 'sim_test_ndarray', 'gridded_test'):
+        return False
     rates = args.get('rates')
     counts = args.get('counts')
     if rates is not None and counts is not None:
